@@ -1,4 +1,5 @@
 import PysphVerif.Lemmas.SchemeNeeds
+import PysphVerif.Lemmas.SchemeStages
 import PysphVerif.Gen.Schemes
 /-!
 # C12 — every shipped scheme yields a complete, generatable simulation
@@ -112,6 +113,47 @@ theorem types_check_rejects_bad_index (kinds : List EqKind) (sk : List StepKind)
     (hu : IndexUsed kinds sk b p) (hbad : ¬ KnownIntegral b p) : typesOk kinds sk b = false :=
   typesOk_false_of_bad_index kinds sk b p hu hbad
 
+/-- the stage check is exactly its specification: it passes iff every member
+of the generated `Integrator` class that the integrator's `one_timestep` uses
+beyond the template's own (`initialize`, `stage1`, …) is a wrapper that some
+stepper of the configuration makes the code generator emit -/
+theorem stages_check_exact (ik : List IntegKind) (sk : List StepKind) (b : Body) :
+    stagesOk ik sk b = true ↔ StagesProvided ik sk b :=
+  stagesOk_iff ik sk b
+
+/-- an integrator that drives a stage no stepper has (the seeded
+`TVDRK3Integrator` over `WCSPHStep`s: `stage3`) cannot pass -/
+theorem stages_check_rejects_missing_stage (ik : List IntegKind) (sk : List StepKind) (b : Body)
+    (i : IntegKind) (m : String) (hi : ik[b.integ]? = some i) (hm : m ∈ i.calls)
+    (hno : ∀ st ∈ b.steppers, ∀ k, sk[st.1]? = some k → ¬ Wraps k m) :
+    stagesOk ik sk b = false := by
+  cases h : stagesOk ik sk b with
+  | false => rfl
+  | true =>
+    obtain ⟨i', hi', hall⟩ := (stagesOk_iff ik sk b).mp h
+    rw [hi] at hi'
+    cases hi'
+    obtain ⟨st, hst, k, hk, hw⟩ := hall m hm
+    exact absurd hw (hno st hst k hk)
+
+/-- `extra_steppers`: the steppers of a configuration are the caller's, then
+the scheme's defaults for exactly the arrays the caller did not mention -/
+theorem extra_steppers_merge (b : Body) (ex : List (Nat × Nat)) (st : Nat × Nat) :
+    st ∈ (withExtra b ex).steppers ↔ st ∈ ex ∨ (st ∈ b.steppers ∧ ∀ e ∈ ex, e.2 ≠ st.2) :=
+  mem_withExtra b ex st
+
+/-- `extra_steppers={}` is `extra_steppers=None` -/
+theorem extra_steppers_empty (b : Body) : withExtra b [] = b := withExtra_nil b
+
+/-- a complete configuration stays complete under ANY caller-supplied steppers
+(of any classes `uks`, for any arrays) each of which finds the properties it
+references on its array -/
+theorem complete_with_extra_steppers (t : List PreSym) (kinds : List EqKind)
+    (sk uks : List StepKind) (b : Body) (ex : List (Nat × Nat))
+    (h : Complete t kinds sk b) (hex : ∀ st ∈ ex, CompleteStepper (sk ++ uks) b st) :
+    Complete t kinds (sk ++ uks) (withExtra b ex) :=
+  complete_withExtra t kinds (sk ++ uks) b ex (complete_more_kinds t kinds sk uks b h) hex
+
 /-! ## the generated table (kernel evaluation over the whole table) -/
 
 /-- every distinct outcome of running a configuration passes the completeness check -/
@@ -124,6 +166,15 @@ theorem bodies_accepted : bodies.all (acceptsBody preTable eqKinds stepKinds) = 
 
 /-- … and passes the type check: index-used array arguments are integer properties -/
 theorem bodies_index_types_ok : bodies.all (typesOk eqKinds stepKinds) = true := by
+  decide +kernel
+
+/-- … and its integrator only drives stages that some stepper provides -/
+theorem bodies_stages_ok : bodies.all (stagesOk integKinds stepKinds) = true := by
+  decide +kernel
+
+/-- … already the steppers of the first array (the fluid) provide them all -/
+theorem bodies_fluid_stages_ok :
+    bodies.all (fun b => stagesOk integKinds stepKinds (onlyArray b 0)) = true := by
   decide +kernel
 
 /-- every grid entry is `0` (rejected by the scheme) or names a body of the table -/
@@ -211,7 +262,84 @@ theorem all_configs_index_types_ok :
   · left; exact h0
   · right; exact ⟨b, hb, typesOk_sound _ _ b hchk⟩
 
+/-- **C12, generatable: stages.**  For every grid point (options × solver
+options such as `integrator_cls` × dim × solids × clean) the scheme either
+rejects the combination or the steppers it chose provide every stage the
+integrator's `one_timestep` drives, so the generated `Integrator` class has
+every method its time step calls. -/
+theorem all_configs_stages_provided :
+    ∀ g ∈ schemeTable, ∀ i, i < gridSize g →
+      PointStagesOk integKinds stepKinds bodies g i := by
+  intro g hg i hi
+  have hr := entries_in_range
+  simp only [List.all_eq_true] at hr
+  rw [← bodyOf_length hg] at hi
+  obtain ⟨c, hc, h⟩ := point_of_runs _ bodies g bodies_stages_ok (hr g hg) i hi
+  refine ⟨c, hc, ?_⟩
+  rcases h with h0 | ⟨b, hb, hchk⟩
+  · left; exact h0
+  · right; exact ⟨b, hb, (stagesOk_iff _ _ b).mp hchk⟩
+
+/-- **C12 with `extra_steppers`.**  For every grid point the scheme accepts and
+EVERY `extra_steppers` dict (steppers of any classes `uks`, `ex` = (class,
+array) pairs): if each caller-supplied stepper references only properties its
+array has after `setup_properties`, the configuration is complete; and if the
+caller leaves the first array (the fluid) to the scheme, every stage the
+integrator drives is still provided. -/
+theorem all_configs_complete_with_extra_steppers :
+    ∀ g ∈ schemeTable, ∀ i, i < gridSize g →
+      ∃ c, g.bodyOf[i]? = some c ∧ (c = 0 ∨ ∃ b, bodies[c - 1]? = some b ∧
+        ∀ (uks : List StepKind) (ex : List (Nat × Nat)),
+          ((∀ st ∈ ex, CompleteStepper (stepKinds ++ uks) b st) →
+            Complete preTable eqKinds (stepKinds ++ uks) (withExtra b ex)) ∧
+          ((∀ e ∈ ex, e.2 ≠ 0) →
+            StagesProvided integKinds (stepKinds ++ uks) (withExtra b ex))) := by
+  intro g hg i hi
+  have hr := entries_in_range
+  simp only [List.all_eq_true] at hr
+  rw [← bodyOf_length hg] at hi
+  obtain ⟨c, hc, h⟩ := point_of_runs _ bodies g bodies_checked (hr g hg) i hi
+  obtain ⟨c', hc', h'⟩ := point_of_runs _ bodies g bodies_fluid_stages_ok (hr g hg) i hi
+  rw [hc] at hc'
+  cases hc'
+  refine ⟨c, hc, ?_⟩
+  rcases h with h0 | ⟨b, hb, hchk⟩
+  · left; exact h0
+  rcases h' with h0 | ⟨b', hb', hst⟩
+  · left; exact h0
+  right
+  rw [hb] at hb'
+  cases hb'
+  refine ⟨b, hb, ?_⟩
+  intro uks ex
+  constructor
+  · intro hex
+    exact complete_with_extra_steppers _ _ _ uks b ex (complete_of_check _ _ _ b hchk) hex
+  · intro hex
+    exact stages_withExtra_of_array _ _ b 0 ex
+      (stagesProvided_more_kinds _ _ uks _ ((stagesOk_iff _ _ _).mp hst)) hex
+
 /-! ## non-vacuity -/
+
+/-- the stage theorem is not vacuous: three-stage integrators occur … -/
+example : ∃ i ∈ integKinds, "stage3" ∈ i.calls := by
+  decide +kernel
+
+/-- … and the check discriminates: give the first configuration whose
+integrator drives `stage3` the steppers of a two-stage configuration (what the
+seeded `isinstance(cls, TVDRK3Integrator)` does) and it fails -/
+example : ((bodies.find? (fun b => (integKinds[b.integ]?.map
+      (fun i => i.calls.contains "stage3")) == some true)).map (fun b =>
+    stagesOk integKinds stepKinds { b with steppers := b.steppers.map (fun st =>
+      ((stepKinds.findIdx? (fun k => !(stepWrappers k).contains "stage3")).getD 0, st.2)) }))
+    = some false := by
+  decide +kernel
+
+/-- a caller-supplied stepper for the second array (a wall) of a configuration
+with two arrays replaces exactly that array's default -/
+example : ((bodies.find? (fun b => b.arrays.length == 2 && b.steppers.length == 2)).map (fun b =>
+    (withExtra b [(0, 1)]).steppers.map (·.2))) = some [1, 0] := by
+  decide +kernel
 
 /-- the type theorem is not vacuous: some configuration does use an array
 element as an index … -/
